@@ -35,6 +35,11 @@ static const SchemaCase schemas[] = {
     {R"({"$schema":"http://json-schema.org/draft-04/schema#","type":"array","items":[{"type":"integer"},{"type":"string"}],"additionalItems":false})", R"([1,"a",true])"},
     {R"({"$schema":"http://json-schema.org/draft-06/schema#","propertyNames":{"maxLength":3},"contains":{"type":"null"},"oneOf":[{"type":"object"},{"type":"array"}]})", R"({"abcd":1})"},
     {R"({"type":"object","properties":{"e":{"type":"string","format":"email"},"u":{"type":"string","format":"uri"},"ip":{"type":"string","format":"ipv4"},"r":{"type":"string","format":"regex"}},"default":{"e":"x"}})", R"({"e":"not an email","u":"http://a/b","ip":"1.2.3.4","r":"["})"},
+    {R"({"$schema":"http://json-schema.org/draft-07/schema#","type":"object","properties":{"doc":{"type":"string","contentMediaType":"application/json","contentEncoding":"base64"},"raw":{"type":"string","contentEncoding":"base64"},"txt":{"type":"string","contentMediaType":"application/json"}}})", R"({"doc":"eyJhIjoxfQ==","raw":"bm90IGpzb24=","txt":"{\"a\":1"})"},
+    {R"({"$schema":"http://json-schema.org/draft-07/schema#","type":"array","items":{"type":"string","contentMediaType":"application/json","contentEncoding":"base64"}})", R"(["eyJhIjoxfQ==","bm90IGpzb24=","e30=","!!notbase64","W3RydWUsIGZhbHNlLCBudWxsLCAxLjUsICJhIGxvbmdlciBzdHJpbmcgdGhhdCBkb2VzIG5vdCBmaXQgdGhlIHNtYWxsIGJ1ZmZlciJd"])"},
+    {R"({"$schema":"https://json-schema.org/draft/2020-12/schema","type":"object","properties":{"d":{"format":"date"},"t":{"format":"time"},"dt":{"format":"date-time"},"h":{"format":"hostname"},"i6":{"format":"ipv6"},"p":{"format":"json-pointer"},"u":{"format":"uri-reference"}},"dependentSchemas":{"d":{"required":["t"]}},"dependentRequired":{"h":["i6"]},"minProperties":1,"maxProperties":6})", R"({"d":"2026-10-05","dt":"2026-10-05T07:00:00+01:00","h":"exa_mple.com","i6":"::1","p":"/a/~2","u":"../x y"})"},
+    {R"({"$schema":"https://json-schema.org/draft/2020-12/schema","$id":"https://example.com/tree","$dynamicAnchor":"node","type":"object","properties":{"data":true,"children":{"type":"array","items":{"$dynamicRef":"#node"}}},"unevaluatedProperties":false})", R"({"data":1,"children":[{"data":2,"children":[]},{"data":3,"extra":true}]})"},
+    {R"({"$schema":"https://json-schema.org/draft/2019-09/schema","type":"array","prefixItems":[{"type":"integer"}],"items":{"type":"number","exclusiveMinimum":0,"exclusiveMaximum":100},"contains":{"const":7},"minContains":1,"maxContains":2,"unevaluatedItems":false})", R"([7,7,7,150,-1])"},
 };
 inline MVal store_doc(Rng& r) {
     // A bookstore-shaped document with seeded variation, so the fixed expression corpora select something.
